@@ -28,6 +28,8 @@ type Obligation struct {
 	QueryLen int
 	Bounded  bool
 	relaxed  bool // cover check re-run without quantified facts
+	ctx      *Ctx
+	results  []Value // result values of the return this obligation belongs to (postconditions)
 }
 
 type InputSym struct {
@@ -57,6 +59,15 @@ type Ctx struct {
 	usesQuant bool
 	wfSeen   map[string]bool
 	entrySym int // symbols with id <= entrySym denote the function-entry state
+	curResults []Value   // set while postconditions of one return are generated (for replay)
+	fi       *FuncInfo   // function under verification (nil for lemmas)
+	inputVals []inputVal // typed input values (for replay)
+}
+
+type inputVal struct {
+	Name   string
+	IsRecv bool
+	V      Value
 }
 
 func newCtx(prog *Program, fnName string) *Ctx {
@@ -199,7 +210,8 @@ func (c *Ctx) oblige(kind string, pc, goal *Term, pos token.Position, detail str
 	}
 	c.counters[kind]++
 	o := &Obligation{Name: fmt.Sprintf("%s/%s#%d", c.fnName, kind, c.counters[kind]), Fn: c.fnName, Kind: kind,
-		Goal: goal, PC: pc, nDecls: len(c.decls), nFacts: len(c.facts), Pos: pos, Props: c.props, Detail: detail, Inputs: c.inputs}
+		Goal: goal, PC: pc, nDecls: len(c.decls), nFacts: len(c.facts), Pos: pos, Props: c.props, Detail: detail, Inputs: c.inputs,
+		ctx: c, results: c.curResults}
 	c.obls = append(c.obls, o)
 	return o
 }
